@@ -28,7 +28,7 @@ SupportedSession(S) ==
   /\ S.cfg.fdt_cenc = 0 /\ S.cfg.scheme \in {0, 5, 129}
 SupportedBeh(S, e) ==
   /\ Len(e.streams) = 1
-  /\ e.fam \in {"subsets", "dups", "perms", "join", "clean", "writer", "expiry"}
+  /\ e.fam \in {"subsets", "dups", "perms", "join", "clean", "writer", "expiry", "corrupt"}
   \* writer scripts are indexed by creation order, which depends on a hash map when several objects attach at once
   \* a compressed object is written in the chunks of the decompressor: its write callbacks are not compared
   /\ ((\E o \in 1..Len(S.objs) : S.objs[o].cenc # 0) => e.w.write_fail = <<>>)
@@ -37,7 +37,7 @@ SupportedBeh(S, e) ==
 
 WhyBeh(S, e) ==
   IF Len(e.streams) # 1 THEN "several-streams"
-  ELSE IF e.fam \notin {"subsets", "dups", "perms", "join", "clean", "writer", "expiry"} THEN "family-" \o e.fam
+  ELSE IF e.fam \notin {"subsets", "dups", "perms", "join", "clean", "writer", "expiry", "corrupt"} THEN "family-" \o e.fam
   ELSE IF (\E o \in 1..Len(S.objs) : S.objs[o].cenc # 0) /\ e.w.write_fail # <<>> THEN "failing-write-of-a-compressed-object"
   ELSE IF Len(S.objs) > 1 /\ ~(e.w.ans = <<>> /\ e.w.open_fail = <<>> /\ e.w.write_fail = <<>>) THEN "writer-script-with-several-objects"
   ELSE "time-outs-or-filtering"
@@ -94,17 +94,27 @@ Init == l = 1 /\ cands = {} /\ wm = <<>> /\ sid = -1 /\ status = "off" /\ beh = 
 
 Fountain(S) == \E o \in 1..Len(S.objs) : S.objs[o].scheme \in {1, 6}
 Oracles(S) == IF Fountain(S) THEN {TRUE, FALSE} ELSE {TRUE}
-Stored(r1) == [r1 EXCEPT !.cb = <<>>, !.fd = TRUE]
+Stored(r1) == [r1 EXCEPT !.cb = <<>>, !.fd = TRUE, !.alt = FALSE]
+\* an altered packet is modelled when only payload bytes of an uncompressed object were changed (same length)
+Altered(e) == Has(e, "mut")
+\* (a flip inside the padding of the last source symbol does not change the content: not modelled)
+ModelledAlteration(S, e) ==
+  LET p == S.pkts[e.i] IN
+  /\ e.mut[1] = "payflip" /\ p.k = "obj" /\ ~Compressed(S, p.o)
+  /\ LET ob == S.objs[p.o]
+         k == BlockSyms(ob.L, ob.E, ob.B, p.sbn)
+         off == IF e.mut[2] = 0 THEN 0 ELSE IF e.mut[2] = 1 THEN p.len \div 2 ELSE p.len - 1
+     IN  ob.L > 0 /\ (p.esi >= k \/ off < SymBytes(ob.L, ob.E, ob.B, p.sbn, p.esi))
 \* successors of the candidate c under the call e that agree with what the real receiver did
 Succ(S, c, e) ==
-  LET outs == IF e.ev = "push" THEN {Push(S, c[1], e.i, e.ts, fd) : fd \in Oracles(S)}
+  LET outs == IF e.ev = "push" THEN {Push(S, c[1], e.i, e.ts, fd, Altered(e)) : fd \in Oracles(S)}
               ELSE IF e.ev = "cleanup" THEN {Cleanup(S, c[1], e.ts)} ELSE {Drop(c[1])}
   IN  {<<IF e.ev = "drop" THEN InitRx(r1.rcfg, r1.ws) ELSE Stored(r1), WMap(c[2], r1.cb)>> :
           r1 \in {x \in outs : Diff(S, x, c[2], wm, e) = <<>>}}
 \* the difference reported when no candidate explains the call (first candidate, oracle TRUE)
 FirstDiff(S, e) ==
   LET c == CHOOSE x \in cands : TRUE
-      r1 == IF e.ev = "push" THEN Push(S, c[1], e.i, e.ts, TRUE) ELSE IF e.ev = "cleanup" THEN Cleanup(S, c[1], e.ts) ELSE Drop(c[1])
+      r1 == IF e.ev = "push" THEN Push(S, c[1], e.i, e.ts, TRUE, Altered(e)) ELSE IF e.ev = "cleanup" THEN Cleanup(S, c[1], e.ts) ELSE Drop(c[1])
   IN  Diff(S, r1, c[2], wm, e)
 
 Off == cands' = {} /\ wm' = <<>> /\ sid' = -1 /\ status' = "off"
@@ -134,8 +144,10 @@ Next ==
             IF e.ev = "sleep" THEN UNCHANGED <<cands, wm, sid, status>>
             ELSE IF e.ev \notin {"push", "cleanup", "drop"} THEN Unsupported("event-" \o e.ev)
             ELSE IF e.res # "ok" THEN Unsupported(e.ev \o "-" \o e.res)
-            ELSE IF e.ev = "push" /\ (Has(e, "mut") \/ e.i < 1 \/ e.i > Len(S.pkts) \/ (Has(e, "sid") /\ e.sid # sid))
-                 THEN Unsupported("altered-or-foreign-packet")
+            ELSE IF e.ev = "push" /\ (e.i < 1 \/ e.i > Len(S.pkts) \/ (Has(e, "sid") /\ e.sid # sid))
+                 THEN Unsupported("foreign-packet")
+            ELSE IF e.ev = "push" /\ Altered(e) /\ ~ModelledAlteration(S, e)
+                 THEN Unsupported("alteration-" \o e.mut[1])
             ELSE LET next == UNION {Succ(S, c, e) : c \in cands} IN
                  IF next # {} THEN
                     IF Cardinality(next) > 16 THEN Unsupported("more-than-16-explanations")
